@@ -39,6 +39,9 @@ def check_stream(cfg, key_prefix='C03', full=True, on_call=None):
     d = cfg['d']
     any_inner2 = False
     prev_row = None
+    pre = h.prefill(ex)            # observations stored before the first explain_one: the first call must still only seed
+    if pre:
+        prev_row = pre[-1]
     for t, row in enumerate(cfg['stream']):
         x, y = h.row(row)
         n_inner = row.get('n_inner')
@@ -99,6 +102,7 @@ def check_stream(cfg, key_prefix='C03', full=True, on_call=None):
         labels.append('unexplained_extra_features')
     if cfg['loss'].get('offset'):
         labels.append('loss_offset')
+    labels += variant_labels(cfg)
     if cmp.exactness_lost:
         labels.append('exactness_lost')
     if h.mode == 'exact' and cmp.exact_agreements:
@@ -108,6 +112,21 @@ def check_stream(cfg, key_prefix='C03', full=True, on_call=None):
     res = Result(True, nontrivial=nt, labels=labels)
     res.detail = {'orders': len(r.orders), 'd': d}
     return res
+
+
+def variant_labels(cfg):
+    out = []
+    m = cfg['model']
+    for k in ('positional', 'opt', 'rank_order', 'out_scale'):
+        if m.get(k):
+            out.append('model_' + k)
+    if cfg.get('prefill'):
+        out.append('prefilled_storage')
+    if cfg.get('defaults_container', 'dict') != 'dict' and cfg['imputer']['kind'] == 'default':
+        out.append('defaults_' + cfg['defaults_container'])
+    if any(r.get('perm') for r in cfg.get('stream', [])):
+        out.append('key_order_varies')
+    return out
 
 
 def recompute_route(h, r, cfg, x, calls, prev_row):
